@@ -195,6 +195,12 @@ fn rule_cases() -> Vec<Case> {
     add("selected fields exist", "{ k { ...F } }\nfragment F on K { nope }", false);
     add("selected fields exist", "mutation { x }", false);
     add("selected fields exist", "mutation { mu }", true);
+    add("leaf fields have no sub-selection", "{ k { __typename { length } } }", false);
+    add("leaf fields have no sub-selection", "{ __typename { x } }", false);
+    add("arguments are defined", "{ __typename(format: \"short\") }", false);
+    add("arguments are defined", "query Q($a: Int) { u { __typename(x: $a) } }", false);
+    add("variables are defined where used", "{ k { __typename(x: $nope) } }", false);
+    add("selected fields exist", "{ __typename @once t: __typename @many @many k { __typename @skip(if: true) } }", true);
     add("leaf fields have no sub-selection", "{ x { y } }", false);
     add("leaf fields have no sub-selection", "{ k { id { z } } }", false);
     add("composite fields have a sub-selection", "{ k }", false);
